@@ -292,7 +292,7 @@ def gen_tokenless():
     return st.builds(lambda s_, c: {"s": s_, "cfg": c}, t, config)
 
 
-LONG_KINDS = ["sum", "minus", "inter", "paren", "unary", "pysum", "pyparen", "bracesum", "calls", "pylist", "power", "parts", "attr"]
+LONG_KINDS = ["sum", "minus", "inter", "paren", "unary", "pysum", "pyparen", "bracesum", "calls", "pylist", "power", "parts", "attr", "subs", "callchain", "pypow", "pyneg", "pynot", "lambda", "ifelse"]
 
 
 def long_string(kind, n):
@@ -320,6 +320,20 @@ def long_string(kind, n):
         return "(a + b)" + "**1" * n
     if kind == "parts":
         return " | ".join("a" for _ in range(n))
+    if kind == "subs":
+        return "f(x" + "[0]" * n + ")"
+    if kind == "callchain":
+        return "f(x" + "()" * n + ")"
+    if kind == "pypow":
+        return "f(a" + "**a" * n + ")"
+    if kind == "pyneg":
+        return "{" + "-" * n + "a}"
+    if kind == "pynot":
+        return "f(" + "not " * n + "a)"
+    if kind == "lambda":
+        return "f(" + "lambda: " * n + "a)"
+    if kind == "ifelse":
+        return "f(" + "a if b else " * n + "a)"
     return "f(a" + ".b" * n + ")"
 
 
@@ -327,7 +341,7 @@ def gen_long():
     """Long / deeply nested inputs: size alone must not turn a parse into an internal error."""
     return st.builds(
         lambda k, n, c: {"s": long_string(k, n), "cfg": c, "long": [k, n]},
-        st.sampled_from(LONG_KINDS), st.sampled_from([150, 400, 700, 1200]), config,
+        st.sampled_from(LONG_KINDS), st.sampled_from([150, 400, 700, 1200, 3000, 5000]), config,
     )
 
 
